@@ -88,6 +88,17 @@ func opXFs(f []string) string {
 	o.Add("nframes", xFramesOf(n))
 	o.Add("istr", hx(i.FrameRange()))
 	o.Add("iframes", xFramesOf(i))
+	{
+		// membership asked of the DERIVED sets
+		nh := make([]string, len(qv))
+		ih := make([]string, len(qv))
+		for k, v := range qv {
+			nh[k] = showBool(n.HasFrame(v))
+			ih[k] = showBool(i.HasFrame(v))
+		}
+		o.Add("nhas", strings.Join(nh, ","))
+		o.Add("ihas", strings.Join(ih, ","))
+	}
 	frp := fs.FrameRangePadded(3)
 	o.Add("frp", hx(xStrip(frp)))
 	o.Add("frpw", showBool(numeralsPadded(frp, 3)))
@@ -306,8 +317,32 @@ func genC19(r *Rand, n int, thorough bool, emit func(string)) {
 		}
 	}
 	per := n / 8
-	genFrameRanges(r, per, thorough, false, rename("fs.parse", "x.fs"))
-	genFrameRanges(r, per, false, true, rename("fs.parse", "x.fs"))
+	// x.fs also normalises and inverts, which walk every value between the smallest and the
+	// largest frame (documented as enumeration-based): texts whose frames lie more than 10^7 apart
+	// are left to the operations that do not (fs.parse of C01 / C02)
+	xfs := func(s string) {
+		if !strings.HasPrefix(s, "fs.parse ") {
+			return
+		}
+		p := strings.Split(s, " ")
+		if fs, err := fileseq.NewFrameSet(unhx(p[1])); err == nil && fs.Len() > 0 && fs.Len() <= 20000 {
+			mn, mx := fs.Start(), fs.Start()
+			for _, v := range fs.Frames() {
+				if v < mn {
+					mn = v
+				}
+				if v > mx {
+					mx = v
+				}
+			}
+			if mx > 0 && mn < 0 && (mx > 10000000 || mn < -10000000) || mx-mn > 10000000 {
+				return
+			}
+		}
+		emit("x.fs" + s[len("fs.parse"):])
+	}
+	genFrameRanges(r, per, thorough, false, xfs)
+	genFrameRanges(r, per, false, true, xfs)
 	genC08(r, per/2, thorough, func(s string) {
 		if strings.HasPrefix(s, "fs.norm ") {
 			p := strings.Split(s, " ")
